@@ -36,6 +36,9 @@ type Entry struct {
 	List []string
 	Set  map[string]bool
 	ZSet map[string]float64
+	// Vol: the key has a time to live (logical flag only: the programs use expiries so far away that no key
+	// ever expires while a program runs, so no clock is involved)
+	Vol bool
 }
 
 // State is one database.
@@ -367,10 +370,31 @@ func (s *State) Exec(argv []string) resp.Value {
 		if n != 1 {
 			return arity(cmd)
 		}
-		if _, ok := s.Keys[a[0]]; ok {
+		if e, ok := s.Keys[a[0]]; ok {
+			if e.Vol {
+				return intv(1) // "some positive number of seconds"
+			}
 			return intv(-1)
 		}
 		return intv(-2)
+	case "EXPIRE":
+		if n != 2 {
+			return arity(cmd)
+		}
+		secs, good := ParseInt(a[1])
+		if !good {
+			return notInt()
+		}
+		e, ok := s.Keys[a[0]]
+		if !ok {
+			return intv(0)
+		}
+		if secs <= 0 {
+			delete(s.Keys, a[0])
+		} else {
+			e.Vol = true
+		}
+		return intv(1)
 
 	// ---- strings ----
 	case "GET":
@@ -389,7 +413,7 @@ func (s *State) Exec(argv []string) resp.Value {
 		if n < 2 {
 			return arity(cmd)
 		}
-		nx, xx, get := false, false, false
+		nx, xx, get, keepttl, expiry := false, false, false, false, false
 		for i := 2; i < n; i++ {
 			switch strings.ToUpper(a[i]) {
 			case "NX":
@@ -399,7 +423,9 @@ func (s *State) Exec(argv []string) resp.Value {
 			case "GET":
 				get = true
 			case "KEEPTTL":
+				keepttl = true
 			case "EX", "PX", "EXAT", "PXAT":
+				expiry = true
 				i++
 			default:
 				return syntax()
@@ -419,7 +445,7 @@ func (s *State) Exec(argv []string) resp.Value {
 			}
 			return nilv()
 		}
-		s.Keys[a[0]] = &Entry{Kind: KString, Str: a[1]}
+		s.Keys[a[0]] = &Entry{Kind: KString, Str: a[1], Vol: expiry || (keepttl && ok && e.Vol)}
 		if get {
 			return old
 		}
@@ -440,7 +466,7 @@ func (s *State) Exec(argv []string) resp.Value {
 		if v, ok := ParseInt(a[1]); !ok || v < 1 {
 			return errv("invalid expire time in 'setex' command")
 		}
-		s.Keys[a[0]] = &Entry{Kind: KString, Str: a[2]}
+		s.Keys[a[0]] = &Entry{Kind: KString, Str: a[2], Vol: true}
 		return okv()
 	case "GETSET":
 		if n != 2 {
@@ -551,7 +577,7 @@ func (s *State) Exec(argv []string) resp.Value {
 			return errv("increment or decrement would overflow")
 		}
 		cur += delta
-		s.Keys[a[0]] = &Entry{Kind: KString, Str: strconv.FormatInt(cur, 10)}
+		s.Keys[a[0]] = &Entry{Kind: KString, Str: strconv.FormatInt(cur, 10), Vol: ok && e.Vol} // a counter keeps its time to live
 		return resp.Int(cur)
 	case "GETRANGE", "SUBSTR":
 		if n != 3 {
@@ -1168,6 +1194,13 @@ func (s *State) Exec(argv []string) resp.Value {
 // Dump renders the whole state canonically (for state comparison).
 func (s *State) Dump() map[string]string {
 	out := map[string]string{}
+	defer func() {
+		for k, e := range s.Keys {
+			if e.Vol {
+				out[k] += " (has a time to live)"
+			}
+		}
+	}()
 	for k, e := range s.Keys {
 		switch e.Kind {
 		case KString:
